@@ -146,9 +146,17 @@ func (f *Field[T]) IsZero(a *Element[T]) frontend.Variable {
 	// however, for checking if the element is p, we can not use the
 	// optimization as we may have underflows. So we have to check every limb
 	// individually.
-	resP := f.api.IsZero(f.api.Sub(p.Limbs[0], ca.Limbs[0]))
-	for i := 1; i < len(ca.Limbs); i++ {
-		resP = f.api.Mul(resP, f.api.IsZero(f.api.Sub(p.Limbs[i], ca.Limbs[i])))
+	// the element may be on fewer (e.g. a small constant) or more limbs than
+	// the modulus: the missing limbs are zero.
+	limbAt := func(e *Element[T], i int) frontend.Variable {
+		if i < len(e.Limbs) {
+			return e.Limbs[i]
+		}
+		return 0
+	}
+	resP := f.api.IsZero(f.api.Sub(limbAt(p, 0), limbAt(ca, 0)))
+	for i := 1; i < max(len(ca.Limbs), len(p.Limbs)); i++ {
+		resP = f.api.Mul(resP, f.api.IsZero(f.api.Sub(limbAt(p, i), limbAt(ca, i))))
 	}
 	return f.api.Or(res0, resP)
 }
